@@ -183,7 +183,7 @@ def gen_purity_world(rw, rv, knobs):
         m2 = R.add("m", {"kind": "mask2d", "shape": [h2, w2], "bits": m2_bits, "pixel_scales": scales(rw), "origin": [0.0, 0.0]})
         n2 = n_unmasked(m2_bits)
         for _ in range(rw.randrange(2, 6)):
-            k = rw.choice(["array2d", "grid2d", "grid2d", "grid2d_values", "vector", "kernel", "vis", "array1d", "irregular", "array2d", "operators"])
+            k = rw.choice(["array2d", "grid2d", "grid2d", "grid2d_values", "vector", "kernel", "vis", "array1d", "irregular", "array2d", "operators", "mask_ctor", "kernel_gaussian"])
             mid, bits_, hh, ww, nn = rw.choice([(m0, m0_bits, h, w, n0), (m2, m2_bits, h2, w2, n2)])
             if k == "array2d":
                 if rw.random() < 0.5:
@@ -215,6 +215,29 @@ def gen_purity_world(rw, rv, knobs):
                 R.add("a1d", {"kind": "array1d", "mask": ref(m1), "values": hx(rv, n_unmasked(b), "data")})
                 if rw.random() < 0.5:
                     R.add("g1d", {"kind": "grid1d", "mask": ref(m1)})
+            elif k == "mask_ctor":
+                hh2, ww2 = rw.randrange(4, 10), rw.randrange(4, 10)
+                ps2 = rw.choice([0.5, 1.0, 2.0])
+                ctor = rw.choice(["circular", "circular_annular", "elliptical", "elliptical_annular"])
+                cen = [rw.choice([0.0, 0.5, -1.0]), rw.choice([0.0, 1.0])]
+                base = {"shape_native": [hh2, ww2], "pixel_scales": ps2, "centre": cen, "invert": rw.random() < 0.15}
+                if rw.random() < 0.3:
+                    base["origin"] = [rw.choice([0.5, -1.0]), rw.choice([0.0, 2.0])]
+                r0 = min(hh2, ww2) * ps2 / 2.0
+                if ctor == "circular":
+                    base.update(radius=r0 * rw.choice([0.5, 0.8]))
+                elif ctor == "circular_annular":
+                    base.update(inner_radius=r0 * 0.3, outer_radius=r0 * 0.8)
+                elif ctor == "elliptical":
+                    base.update(major_axis_radius=r0 * 0.8, axis_ratio=rw.choice([0.4, 0.7]), angle=rw.choice([0.0, 30.0, 100.0]))
+                else:
+                    base.update(inner_major_axis_radius=r0 * 0.3, inner_axis_ratio=0.6, inner_phi=20.0, outer_major_axis_radius=r0 * 0.85, outer_axis_ratio=0.7, outer_phi=rw.choice([20.0, 70.0]))
+                mc = R.add("m", {"kind": "mask2d_ctor", "ctor": ctor, "kw": base})
+                R.add("g", {"kind": "grid2d", "mask": ref(mc), "mode": "from_mask", "over": rw.choice([None, {"uniform": 2}])})
+            elif k == "kernel_gaussian":
+                ks = [rw.choice([3, 5]), rw.choice([3, 5])]
+                R.add("k", {"kind": "kernel_gaussian", "kw": {"shape_native": ks, "pixel_scales": rw.choice([0.5, 1.0]), "sigma": rw.choice([0.5, 1.0, 2.0]),
+                                                               "axis_ratio": rw.choice([1.0, 0.6]), "angle": rw.choice([0.0, 45.0]), "normalize": rw.random() < 0.5}})
             elif k == "operators":
                 sub = rw.choice([1, 2, [rw.choice([1, 2]) for _ in range(nn)]])
                 R.add("os", {"kind": "over_sampler", "mask": ref(mid), "sub_size": sub})
@@ -275,7 +298,10 @@ def gen_purity_world(rw, rv, knobs):
             settings = R.add("st", {"kind": "settings", "kw": kw})
         inv = R.add("inv", {"kind": "inversion", "dataset": ref(ds_masked), "objs": [ref(o) for o in objs], "settings": ref(settings) if settings else None, "profile": profile})
         if rw.random() < 0.6:
-            R.add("fit", {"kind": "fit_imaging", "dataset": ref(ds_masked), "inversion": ref(inv), "use_mask_in_fit": rw.random() < 0.3})
+            fit_spec = {"kind": "fit_imaging", "dataset": ref(ds_masked), "inversion": ref(inv), "use_mask_in_fit": rw.random() < 0.3}
+            if rw.random() < 0.3:
+                fit_spec["dataset_model"] = {"background_sky_level": rw.choice([0.0, 0.2]), "grid_offset": [rw.choice([0.0, 0.5]), rw.choice([0.0, -1.0])]}
+            R.add("fit", fit_spec)
             if rw.random() < 0.5:
                 # a second, identical inversion + fit and an empty Preloads: the Preloads.set_*(fit_0, fit_1) helpers as query calls
                 inv_b = R.add("inv", {"kind": "inversion", "dataset": ref(ds_masked), "objs": [ref(o) for o in objs], "settings": ref(settings) if settings else None})
